@@ -47,6 +47,17 @@ func gen(r *verifsim.Rng, tier string) (any, hx.Sched) {
 	}
 	var insts []Op
 	nops := ni + 2 + r.Intn(10)
+	// family runs: every instantiation is of ONE generic class with arguments from
+	// a two-type subset, so that instantiations equal or differ in single positions
+	family := ""
+	var sub []string
+	if r.Intn(4) == 0 {
+		family = verifsim.Pick(r, []string{"G1", "G2", "G2", "G4", "G4", "G4"})
+		p := r.Perm(len(types))
+		sub = []string{types[p[0]], types[p[1]]}
+		ni = 3 + r.Intn(4)
+		nops = ni + 3 + r.Intn(10)
+	}
 	for len(w.Ops) < nops {
 		if len(insts) < ni && (len(insts) == 0 || r.Intn(3) == 0) {
 			op := Op{K: "I", Inst: len(insts), Class: "G1", Args: []string{verifsim.Pick(r, types)}}
@@ -56,6 +67,28 @@ func gen(r *verifsim.Rng, tier string) (any, hx.Sched) {
 				op.Args = []string{verifsim.Pick(r, types), verifsim.Pick(r, types)}
 			case 2:
 				op.Class = "G3" // extends a plain class, has a defaulted property next to the typed one
+			case 3:
+				if r.Intn(2) == 0 {
+					op.Class = "G4" // four type parameters; instantiations often differ only in the last one
+					a := verifsim.Pick(r, types)
+					op.Args = []string{a, a, a, verifsim.Pick(r, types)}
+					if r.Intn(3) == 0 {
+						op.Args = []string{verifsim.Pick(r, types), verifsim.Pick(r, types), verifsim.Pick(r, types), verifsim.Pick(r, types)}
+					}
+				}
+			}
+			if family != "" {
+				op.Class = family
+				n := map[string]int{"G1": 1, "G2": 2, "G4": 4}[family]
+				op.Args = nil
+				first := verifsim.Pick(r, sub)
+				for i := 0; i < n; i++ {
+					a := first
+					if i == n-1 || r.Intn(4) == 0 {
+						a = verifsim.Pick(r, sub)
+					}
+					op.Args = append(op.Args, a)
+				}
 			}
 			// Factory: the instance comes from a `new` expression inside a function
 			// (one shared `new` site per class and type argument) instead of an inline one
@@ -70,6 +103,8 @@ func gen(r *verifsim.Rng, tier string) (any, hx.Sched) {
 			op.Mem = verifsim.Pick(r, []string{"p", "p", "p", "set", "put", "put"})
 		} else if in.Class == "G3" {
 			op.Mem = verifsim.Pick(r, []string{"p", "put"})
+		} else if in.Class == "G4" {
+			op.Mem = verifsim.Pick(r, []string{"a", "b", "c", "d", "d"})
 		} else {
 			op.Mem = verifsim.Pick(r, []string{"a", "b"})
 		}
@@ -158,6 +193,12 @@ class G2<K, W> {
   public K $a;
   public W $b;
 }
+class G4<A, B, C, D> {
+  public A $a;
+  public B $b;
+  public C $c;
+  public D $d;
+}
 class Cint { public int $p; public function set(int $v) { return 1; } }
 class Cstring { public string $p; public function set(string $v) { return 1; } }
 class Carray { public array $p; public function set(array $v) { return 1; } }
@@ -165,6 +206,8 @@ class CU { public U $p; public function set(U $v) { return 1; } }
 function wp($o, $v) { try { $o->p = $v; return "A"; } catch (\Throwable $e) { return "R"; } }
 function wa($o, $v) { try { $o->a = $v; return "A"; } catch (\Throwable $e) { return "R"; } }
 function wb($o, $v) { try { $o->b = $v; return "A"; } catch (\Throwable $e) { return "R"; } }
+function wc($o, $v) { try { $o->c = $v; return "A"; } catch (\Throwable $e) { return "R"; } }
+function wd($o, $v) { try { $o->d = $v; return "A"; } catch (\Throwable $e) { return "R"; } }
 function wset($o, $v) { try { $o->set($v); return "A"; } catch (\Throwable $e) { return "R"; } }
 function wput($o, $v) { try { $o->put($v); return "A"; } catch (\Throwable $e) { return "R"; } }
 function mkG1int() { return new G1<int>(); }
@@ -179,12 +222,12 @@ function mkG3U() { return new G3<U>(); }
 
 func renderOp(op Op, idx int) string {
 	if op.K == "I" {
-		if op.Factory && op.Class != "G2" {
+		if op.Factory && (op.Class == "G1" || op.Class == "G3") {
 			return fmt.Sprintf("$o%d = mk%s%s();\n", op.Inst, op.Class, op.Args[0])
 		}
 		return fmt.Sprintf("$o%d = new %s<%s>();\n", op.Inst, op.Class, strings.Join(op.Args, ", "))
 	}
-	fn := map[string]string{"p": "wp", "a": "wa", "b": "wb", "set": "wset", "put": "wput"}[op.Mem]
+	fn := map[string]string{"p": "wp", "a": "wa", "b": "wb", "set": "wset", "put": "wput", "c": "wc", "d": "wd"}[op.Mem]
 	return fmt.Sprintf("__rec(\"w%d\", %s($o%d, %s));\n", idx, fn, op.Inst, valueExpr[op.Val])
 }
 
@@ -329,8 +372,13 @@ func exec(t *testing.T, x any, s hx.Sched) *hx.Outcome {
 			key := fmt.Sprintf("w%d", i)
 			h, sOK := got[key], solo[key]
 			targ := in.Args[0]
-			if op.Mem == "b" {
+			switch op.Mem {
+			case "b":
 				targ = in.Args[1]
+			case "c":
+				targ = in.Args[2]
+			case "d":
+				targ = in.Args[3]
 			}
 			desc := fmt.Sprintf("%s<%s> member %s := %s value", in.Class, strings.Join(in.Args, ","), op.Mem, op.Val)
 			if h != sOK {
